@@ -1001,6 +1001,10 @@ func (x Expr) set(data, value any, fun string, one bool) error {
 				if len(tv) <= end {
 					end = len(tv) - 1
 				}
+				if (0 < step && end < start) || (step < 0 && start < end) {
+					// Empty range, the rounding below must not turn it into [start].
+					continue
+				}
 				end = start + ((end - start) / step * step)
 				if 0 < step {
 					for i := end; start <= i; i -= step {
@@ -1055,6 +1059,10 @@ func (x Expr) set(data, value any, fun string, one bool) error {
 				if size <= end {
 					end = size - 1
 				}
+				if (0 < step && end < start) || (step < 0 && start < end) {
+					// Empty range, the rounding below must not turn it into [start].
+					continue
+				}
 				end = start + ((end - start) / step * step)
 				if 0 < step {
 					for i := end; start <= i; i -= step {
@@ -1107,6 +1115,10 @@ func (x Expr) set(data, value any, fun string, one bool) error {
 				}
 				if len(tv) <= end {
 					end = len(tv) - 1
+				}
+				if (0 < step && end < start) || (step < 0 && start < end) {
+					// Empty range, the rounding below must not turn it into [start].
+					continue
 				}
 				end = start + ((end - start) / step * step)
 				if 0 < step {
